@@ -13,7 +13,11 @@ func NewStep(from, to float64, step int64, duration time.Duration) core.Schedule
 		return NewConst(from, duration)
 	}
 
-	for i := from; i <= to; i += float64(step) {
+	// The levels are from, from+step, ... up to and including to. The level is accumulated in float64 and can come
+	// out a few ulps above to (0.12+1+...+1 = 8.120000000000001 > 8.12), which silently dropped the last level:
+	// compare with a tolerance far below the distance between two levels (step >= 1).
+	const levelEps = 1e-6
+	for i := from; i <= to+levelEps; i += float64(step) {
 		nexts = append(nexts, NewConst(i, duration))
 	}
 
